@@ -162,8 +162,13 @@ fn sort_natural_ref(a: &[V]) -> Vec<V> {
 fn uniq_ref(a: &[V]) -> Vec<V> {
     let mut out: Vec<V> = Vec::new();
     for x in a {
-        // equality = the value model's (e.g. `false == nil` holds there)
-        if !out.iter().any(|y| liquid_core::model::ValueViewCmp::new(&y.to_liquid()) == liquid_core::model::ValueViewCmp::new(&x.to_liquid())) {
+        // equality = the independent reference's where it has an opinion (scalars of one kind, arrays, objects: same
+        // keys and equal members), otherwise the value model's (e.g. `false == nil` holds there)
+        let same = |y: &V| match crate::refl::ref_eq(y, x) {
+            Ok(b) => b,
+            Err(_) => liquid_core::model::ValueViewCmp::new(&y.to_liquid()) == liquid_core::model::ValueViewCmp::new(&x.to_liquid()),
+        };
+        if !out.iter().any(same) {
             out.push(x.clone());
         }
     }
